@@ -325,6 +325,13 @@ pub async fn run_fault_case(case: &C09Case, obs: &mut Obs) {
 		settle().await;
 	}
 	settle().await;
+	// while the transport's close() hangs after a failure of the sending half, the receiving half fails too:
+	// the cause everybody is told stays the first one
+	if case.close_stalls && !case.send_stalls && case.during.len() >= 2 && matches!(case.fault, Fault::SendError | Fault::SendErrorOnUnsubscribe | Fault::PingFails) {
+		w.mc.push_err("second-failure-while-closing");
+		obs.class("second-failure-while-close-hangs");
+		settle().await;
+	}
 	if gated {
 		let outs = w.outcomes().await;
 		for (i, o) in outs.iter().enumerate() {
@@ -340,6 +347,17 @@ pub async fn run_fault_case(case: &C09Case, obs: &mut Obs) {
 				obs.fail("c09/placeholder-cause-on-send-failure", format!("on_disconnect() resolved inside the gate window with {s}; {}", desc(&w)));
 			}
 			on_disc = tokio::spawn(async move { s });
+		} else if case.close_stalls && !case.send_stalls {
+			// the fault has happened and only the transport's close() is hanging: the client must not look alive
+			obs.fail("c09/on-disconnect-pending-while-close-hangs", desc(&w));
+		}
+		if case.close_stalls && !case.send_stalls {
+			obs.check(!w.mc.client.is_connected(), "c09/still-connected-while-close-hangs", || desc(&w));
+			for (i, o) in outs.iter().enumerate().skip(during_start) {
+				if o.is_none() {
+					obs.fail("c09/operation-pending-while-close-hangs", format!("op#{i} {:?} issued after the fault is still pending although only close() is outstanding; {}", w.ops[i].kind, desc(&w)));
+				}
+			}
 		}
 	}
 	// ---- release everything
